@@ -271,6 +271,7 @@ BIL_SCALAR = [
     "lambda u, v: (kappa * Am @ u.grad) @ v.grad",
     "lambda u, v: u * v",
     "lambda u, v: c0 * u * v + u.grad.dot(v.grad)",
+    "lambda u, v: cz * u.dot(v) + u.grad.dot(v.grad)",
 ]
 LIN_SCALAR = [
     "lambda v: 1 * v",
@@ -280,6 +281,7 @@ LIN_SCALAR = [
     "lambda v: (bv @ v.grad).reshape(Ne, nPg, 1)",
     "lambda v: bv @ v.grad",
     "lambda v: kappa * v.grad.dot(bv)",
+    "lambda v: cz * v",
 ]
 LIN_VECTOR = [
     "lambda v: Sym_Grad(v).ddot(S0)",
@@ -344,7 +346,9 @@ def forms_rule(ctx):
     bv = XArray((dim,), [Poly.var(f"b{i}") for i in range(dim)])
     C4 = XArray((dim,) * 4, [Poly.var("C" + "".join(map(str, idx))) for idx in itertools.product(range(dim), repeat=4)])
     S0 = XArray((dim, dim), [Poly.var("S00"), Poly.var("S01"), Poly.var("S01"), Poly.var("S11")])
-    consts = {"c0": Q(3), "lmbda": Q(5, 2), "mu": Q(7, 3), "Am": Am, "bv": bv, "C4": C4, "S0": S0, "Ne": Ne, "nPg": nPg}
+    from ..xeval import IMAG
+
+    consts = {"c0": Q(3), "cz": Poly.const(Q(1)) + IMAG * Q(2), "lmbda": Q(5, 2), "mu": Q(7, 3), "Am": Am, "bv": bv, "C4": C4, "S0": S0, "Ne": Ne, "nPg": nPg}
     impl_env = dict(consts, kappa=kappa, Trace=repo.func("EasyFEA.FEM._linalg.Trace"), Transpose=repo.func("EasyFEA.FEM._linalg.Transpose"), Sym_Grad=repo.func("EasyFEA.FEM._field.Sym_Grad"))
 
     class _Reshaped:
@@ -369,6 +373,9 @@ def forms_rule(ctx):
             r.fail(f.qualname, key, f.file, f.lineno, f"{cls.name}.Integrate_e", f"{label} form `{src}`: raises {e}")
             return
         except Uninterpretable as e:
+            if "a complex value is stored" in str(e):
+                r.fail(f.qualname, key, f.file, f.lineno, f"{cls.name}.Integrate_e", f"{label} form `{src}` (complex coefficient 1 + 2i): {str(e).split(': ', 1)[-1]}: the element array is the real part of the form only")
+                return
             if "cannot broadcast" in str(e) or "do not broadcast" in str(e) or "cannot reshape" in str(e):
                 # a shape error numpy itself would raise: the form does not produce a per-point scalar
                 r.fail(f.qualname, key, f.file, f.lineno, f"{cls.name}.Integrate_e", f"{label} form `{src}`: the integrand is not a scalar field ({e})")
